@@ -62,4 +62,12 @@ TEXT = {
  'design_ref': 'DESIGN.md §5 C12',
  'note': "Trusted: the model of the advertised set written from the property statement; memnet.Serve's crafted *http.Request.",
  'technique': 'property-based testing (rapid): executable model of the dispatch rules vs ServeHTTP; Spec agreement as an invariant over generated URL shapes'},
+    'C10': {'text': 'Exploration in virtual time: durations stratified over every unit × digit-count boundary of both encodings (±3 ns), the largest expressible values, '
+         'MaxInt64, log-uniform and uniform draws; the header a client emits is parsed with an independent grammar and bounded from both sides; header strings '
+         "(grammatical, hand-picked malformed, byte mutations, random bytes) are served and the handler's context deadline compared exactly; end-to-end over "
+         'real HTTP/1.1 and h2c.',
+ 'design_ref': 'DESIGN.md §5 C10',
+ 'note': "Trusted: testing/synctest's virtual clock; refwire's timeout grammars. All three sub-checks are black-box (no unexported identifiers).",
+ 'technique': 'property-based testing (rapid) in synctest bubbles: exact two-sided bounds on the encoded timeout, exact deadline equality on decode, rejection '
+              'oracle for malformed strings'},
 }
